@@ -17,7 +17,7 @@ func init() {
 		Explanation: "(a) solver.(*Solver).CountModels and solver.(*Solver).Enumerate perform the same blocking step: decisionLits, the split on len(lits) (0: status Unsat, 1: propagateUnits, otherwise NewClause + appendClause + backjump to abs(model[v])-1 + cleanupBindings + reason[v] = c + propagateAndSearch), the restart loop and the status stores agree fact by fact, with the same control contexts, outside the documented snapshot/delivery asymmetries, and both expand a partial model into the same 2^k count; " +
 			"(b) every last-element access x[len(x)-1] reachable from the two entry points has evidence that x is not empty (so trivial problems do not panic there).",
 		NotDecided: "exactness of the count (each model once and only once depends on the search history); store-and-watch of the blocking clause is R1.2, close-on-every-return and fresh-on-send are R20.1/R20.3; nothing is executed.",
-		Rules:      []ruleFn{ruleR5_2, ruleR5_4, ruleR5_5, ruleR5_6, ruleR5_7, ruleR5_8, ruleR14_3, ruleR1_2, ruleR9_5, ruleR9_7, ruleR20_1_2, ruleR20_3},
+		Rules:      []ruleFn{ruleR5_2, ruleR5_4, ruleR5_5, ruleR5_6, ruleR5_7, ruleR5_8, ruleR14_3, ruleR1_2, ruleR9_5, ruleR9_7, ruleR20_1_2, ruleR20_3, ruleR5_9, ruleR5_10},
 		Fixtures:   []func(*World) []string{fixtureE7, fixtureR5_4},
 	})
 }
